@@ -603,4 +603,11 @@ def main(chk: core.Check) -> int:
     except Exception as ex:
         import traceback
         chk.obligation_broken("correspondence", "harness run on implementation", f"{type(ex).__name__}: {ex}\n{traceback.format_exc()[-1800:]}")
-    return chk.finish(None)
+    def search():
+        # a broken obligation on the Python side of the reader chain (Bes3Interpretation.final_array / awkward_form, post-processing): drive the
+        # real final_array with index-valued baskets in every delivery order and with digi records, as the C02 check does
+        from checks import c02
+        c02.model_vs_real(chk, 120)
+        if not chk.failing:
+            c02.digi_post(chk)
+    return chk.finish(search)
